@@ -31,6 +31,7 @@ class SymF:
         v = z3.Real(name)
         if name not in c.inputs:
             c.inputs[name] = ("real", v)
+            c.boxes[name] = (lo, hi)
             if lo is not None:
                 c.assume.append(v >= lo)
             if hi is not None:
